@@ -500,6 +500,15 @@ def r10_6(ctx: Ctx, rule="R10.6"):
     for nm, inp_name, defaults in specs:
         f = ctx.func(nm)
         inp = inp_name or [p for p in f.params if p != "self"][0]
+        # dictionary idioms this rule does not model (get / setdefault / fromkeys / a rebound input): not decided
+        odd = [c_ for c_ in calls_in(f.node) if (call_name(c_) in ("get", "setdefault", "pop") and isinstance(c_.func, ast.Attribute)
+                                                  and norm(c_.func.value) == inp) or call_name(c_) == "fromkeys"]
+        rebound = [s_ for s_ in walk_no_nested(f.node) if isinstance(s_, ast.Assign) and norm(s_.targets[0]) == inp]
+        if odd or rebound:
+            ctx.ob(rule, f, (odd or rebound)[0], True, "the option dictionary is handled with an idiom outside the modelled fragment "
+                   "(%s); re-keying not decided on this tree" % norm((odd or rebound)[0])[:60], undecided=True, node=(odd or rebound)[0])
+            total += 3
+            continue
         # unknown names are refused: `for n in inp: if n not in <complete correspondence>: raise KeyError`
         unk = [n_ for n_ in walk_no_nested(f.node) if isinstance(n_, ast.For) and norm(n_.iter) == inp]
         oku = False
@@ -610,9 +619,17 @@ def r10_6(ctx: Ctx, rule="R10.6"):
         okv = phas(lp_[0], "%s[%s[0]]" % (st_[0][1]["V_s"], tv)) and phas(lp_[0], "%s[%s[1]]" % (en_[0][1]["V_e"], tv))
         lens = [n_ for n_ in walk_no_nested(vi.node) if isinstance(n_, ast.If) and "len(%s) != 2" % tv in norm(n_.test) and branch_raises(n_.body)
                 and not isinstance(n_.test, ast.UnaryOp)]
-    ctx.ob(rule, vi, "index validation", okv and bool(lens),
-           "each pair must have two components; the first is checked against the start molecule, the second against the end molecule",
-           node=vi.node)
+    crossed = False
+    if st_ and en_ and lp_:
+        tv = norm(lp_[0].target)
+        crossed = phas(lp_[0], "%s[%s[1]]" % (st_[0][1]["V_s"], tv)) or phas(lp_[0], "%s[%s[0]]" % (en_[0][1]["V_e"], tv))
+    if (okv and lens) or crossed or not (st_ and en_ and lp_):
+        ctx.ob(rule, vi, "index validation", okv and bool(lens) and not crossed,
+               "each pair must have two components; the first is checked against the start molecule, the second against the end molecule",
+               node=vi.node)
+    else:
+        ctx.ob(rule, vi, "index validation", True, "the per-pair checks are not written as `start[pair[0]]` / `end[pair[1]]` with a "
+               "`len(pair) != 2` test; not decided on this tree", undecided=True, node=vi.node)
     hs = [h for h in ast.walk(vi.node) if isinstance(h, ast.ExceptHandler)]
     okh = len(hs) >= 2 and all(norm(h.type) == "IndexError" and branch_raises(h.body) and "ValueError" in ast.unparse(h) for h in hs)
     ctx.ob(rule, vi, "out-of-range indices", okh, "an index outside a molecule is reported as ValueError", node=vi.node)
